@@ -66,6 +66,11 @@ pub fn run(out: &mut Out, _seed: u64, _tier: &str) {
     for s in ["\0", "\0\0", "\u{41d}", "\u{421}", "\u{39d}", "Ｈ", "ℍ", "Не"] { strings.push(s.to_string()); }
     strings.sort();
     strings.dedup();
+    // every string is asked for again right after it was answered, and once more after a valid symbol: the answer is the string's,
+    // whatever was asked before
+    let first_pass: Vec<String> = strings.clone();
+    let mut strings: Vec<String> = vec![];
+    for (k, s) in first_pass.iter().enumerate() { strings.push(s.clone()); if k % 3 != 2 { strings.push(s.clone()); } if k % 5 == 0 { strings.push("C".to_string()); strings.push(s.clone()); strings.push(s.clone()); } }
     for s in &strings {
         let line = match AtomicNumber::from_string(s) {
             Ok(a) => {
